@@ -45,7 +45,7 @@ def c15_shapes(tier, seed, features):
 
 def call_requests(shs, tier, seed):
     rnd = random.Random(seed + 21)
-    n = 12 if tier == 'quick' else 120
+    n = 24 if tier == 'quick' else 160
     out = []
     for i, sh in enumerate(shs):
         settable = [j for j in range(len(sh['fields'])) if shapes.setter_name(sh, j)]
@@ -59,8 +59,11 @@ def call_requests(shs, tier, seed):
                 j = rnd.choice(settable)
                 f = sh['fields'][j]
                 r = rnd.random()
-                if r < 0.3:
+                if r < 0.22:
                     v = cur[j + 1]                      # deliberately the current value
+                elif r < 0.36:
+                    # equal in the sense of the field's strategy but not identical: only skipped nested parts differ
+                    v = shapes.mutate_inner(f, cur[j + 1], rnd, only_skipped=True)
                 elif r < 0.7:
                     v = shapes.mutate_field(f, cur[j + 1], rnd)
                 else:
